@@ -1368,7 +1368,7 @@ def gen_move_elementwise(L, K, rng):
     constructed on their storage"""
     g = ScriptGen(L, K, rng)
     fixed = [rng.choice([0, 1, 2, 3]) for _ in range(nfixed(L))]
-    fixed2 = fixed if rng.random() < 0.7 else [rng.choice([0, 1, 2, 3]) for _ in range(nfixed(L))]
+    fixed2 = fixed if rng.random() < 0.4 else [rng.choice([0, 1, 2, 3]) for _ in range(nfixed(L))]
     g.op_mkvec(0, cap=rng.choice([2, 3, 4, 6]), fixed=fixed, aid=1)
     g.op_mkvec(1, cap=rng.choice([1, 2, 3, 4]), fixed=fixed2, aid=2)
     for _ in range(rng.randrange(1, 5)):
